@@ -3,7 +3,7 @@
 Implementation driven (real code from $VERIF_REPO/src):
   highdicom.sr.value_types.ContentSequence: __init__, from_sequence (+ _check_dataset and the
   from_dataset chain of TEXT / CONTAINER datasets, copy=True/False), append, extend, +=, insert,
-  __setitem__ (int / slice), __delitem__ (int / slice), the inherited pop, remove, reverse, clear,
+  seq.extend(seq), seq += seq, __setitem__ (int / slice), __delitem__ (int / slice), the inherited pop, remove, reverse, clear,
   count, find, index, `in`, get_nodes, is_root / is_sr, with real ContainerContentItem /
   TextContentItem objects and plain pydicom Datasets.
 Model: coq/theories/C14_Model.v; theorems: C14_Props.v.
@@ -40,7 +40,8 @@ MODELLED = ('sr/value_types.py ContentSequence.__init__, append, extend, __iadd_
             're-modelled; ContentItem abstracted to is-item/name/relationship/container/node/payload, a dataset '
             'to is-Dataset/value type/required attribute/name/relationship/children/payload)')
 STRATA = ['hist_sr', 'hist_root', 'hist_nonsr', 'init_err', 'init_via', 'fromseq', 'eq', 'slice']
-RULE = ('operations: append, extend, +=, insert, setitem/delitem (int, slice), pop, remove, reverse, clear; construction by '
+RULE = ('operations: append, extend, +=, seq.extend(seq), seq += seq (under a 5 s alarm), insert, setitem/delitem (int, slice), '
+        'pop, remove, reverse, clear; construction by '
         '__init__ (list / another ContentSequence) and by from_sequence (plain Datasets, copy or in place, 7 kinds of '
         'malformed dataset, wrong relationship state); '
         'random operation histories (length <= 12, plus systematic 2-operation histories) over items with 3 names '
@@ -51,8 +52,8 @@ RULE = ('operations: append, extend, +=, insert, setitem/delitem (int, slice), p
         'operations accepted and a final list with >= 2 items, or a refused operation; distinct by case hash')
 EXHAUSTIVE = {'quick': False, 'thorough': False}
 NOT_EXECUTED = ['from_sequence with value types other than TEXT / CONTAINER (their from_dataset differs only in the '
-                'required attribute checked by _assert_value_type)',
-                's.extend(s) (does not terminate: list grows while it is iterated)']
+                'required attribute checked by _assert_value_type)']
+HANG_S = 5           # seq.extend(seq) / seq += seq are run under signal.alarm: a hang is reported, not suffered
 
 JUNK = 'junk'        # not a Dataset at all (the int 5)
 JUNKDS = 'junkds'    # a pydicom Dataset that is not a ContentItem
@@ -190,6 +191,10 @@ def ref_apply(ref, op):
             new.reverse()
         elif k == 'clear':
             new.clear()
+        elif k == 'extend_self':
+            new.extend(new)
+        elif k == 'iadd_self':
+            new += new
         else:
             raise AssertionError(k)
     except (IndexError, ValueError) as e:
@@ -265,14 +270,15 @@ def gen_op(rng, ref_len, root, sr):
     n = ref_len
     k = rng.choice(['append', 'append', 'extend', 'iadd', 'insert', 'insert', 'setint', 'setint',
                     'setslice', 'setslice', 'setslice', 'delint', 'delint', 'delslice', 'delslice',
-                    'pop', 'remove', 'remove', 'reverse', 'reverse', 'clear' if rng.random() < 0.4 else 'pop'])
+                    'pop', 'remove', 'remove', 'reverse', 'reverse', 'clear' if rng.random() < 0.4 else 'pop',
+                    'extend_self' if n <= 8 else 'reverse', 'iadd_self' if n <= 8 else 'pop'])
     item = lambda **kw: gen_item(rng, root, sr, **kw)   # noqa: E731
     if k == 'pop':
         return ['pop', None if rng.random() < 0.4 else gen_pos(rng, n)]
     if k == 'remove':
         # mostly an item that is (or equals one that is) in the list: the caller passes candidates
         return ['remove', item(p_bad=0.1)]
-    if k in ('reverse', 'clear'):
+    if k in ('reverse', 'clear', 'extend_self', 'iadd_self'):
         return [k]
     if k == 'append':
         return ['append', item()]
@@ -401,7 +407,8 @@ def alphabet(rng, root, sr, n):
            ['setslice', None, None, 2, [c]], ['setslice', 0, 1, None, [bad]],
            ['delint', 0], ['delint', -1], ['delint', n], ['delslice', None, None, 2], ['delslice', 1, None, None],
            ['delslice', None, None, -2], ['delslice', None, None, None], ['delslice', None, None, 0],
-           ['pop', None], ['pop', 0], ['pop', n], ['remove', a], ['remove', c], ['remove', bad], ['reverse'], ['clear']]
+           ['pop', None], ['pop', 0], ['pop', n], ['remove', a], ['remove', c], ['remove', bad], ['reverse'], ['clear'],
+           ['extend_self'], ['iadd_self'], ['extend_self']]
     return ops
 
 
@@ -518,9 +525,48 @@ def _apply(seq, op, mk):
         seq.reverse()
     elif k == 'clear':
         seq.clear()
+    elif k == 'extend_self':
+        _with_alarm(lambda: seq.extend(seq))
+    elif k == 'iadd_self':
+        def iadd():
+            t = seq
+            t += t
+        _with_alarm(iadd)
     else:
         raise AssertionError(k)
     return None
+
+
+class DidNotTerminate(BaseException):
+    pass
+
+
+def _with_alarm(fn):
+    """run fn under a HANG_S second alarm (the check runs cases in forked single-threaded workers)"""
+    import signal
+
+    def stop(*_):
+        raise DidNotTerminate()
+    old = signal.signal(signal.SIGALRM, stop)
+    signal.alarm(HANG_S)
+    try:
+        return fn()
+    finally:
+        signal.alarm(0)
+        signal.signal(signal.SIGALRM, old)
+
+
+def _run_ops(seq, c, mk):
+    out = [_observe(seq, c, mk)]
+    for op in c['ops']:
+        try:
+            e = catch(lambda: _apply(seq, op, mk))
+        except DidNotTerminate:
+            # the sequence is now enormous: do not observe it, do not go on
+            out.append([Err('DidNotTerminate'), None])
+            break
+        out.append([e, _observe(seq, c, mk)])
+    return out
 
 
 def plain(ds):
@@ -589,11 +635,7 @@ def run_impl(c):
         seq = catch(lambda: ContentSequence.from_sequence(dsl, is_root=c['root'], is_sr=c['sr'], copy=c['copy']))
         if isinstance(seq, Err):
             return seq
-        out = [_observe(seq, c, mk)]
-        for op in c['ops']:
-            e = catch(lambda: _apply(seq, op, mk))
-            out.append([e, _observe(seq, c, mk)])
-        return out
+        return _run_ops(seq, c, mk)
     items0 = [mk(i) for i in c['init']]
     if c.get('via'):
         via = catch(lambda: ContentSequence(items0, is_root=c['via'][0], is_sr=c['via'][1]))
@@ -602,11 +644,7 @@ def run_impl(c):
     seq = catch(lambda: ContentSequence(items0, is_root=c['root'], is_sr=c['sr']))
     if isinstance(seq, Err):
         return seq
-    out = [_observe(seq, c, mk)]
-    for op in c['ops']:
-        e = catch(lambda: _apply(seq, op, mk))
-        out.append([e, _observe(seq, c, mk)])
-    return out
+    return _run_ops(seq, c, mk)
 
 
 # ---------------------------------------------------------------------------
@@ -653,6 +691,10 @@ def cop(op):
         return 'Reverse'
     if k == 'clear':
         return 'Clear'
+    if k == 'extend_self':
+        return 'ExtendSelf'
+    if k == 'iadd_self':
+        return 'IAddSelf'
     return f'Op ({cop0(op)})'
 
 
@@ -761,6 +803,8 @@ def oracle(c, out):
         return m
     for j, (op, (e, obs)) in enumerate(zip(c['ops'], out[1:]), 1):
         where = f'after op {j} {op[0]}'
+        if isinstance(e, Err) and e.kind == 'DidNotTerminate':
+            return f'{where}: did not terminate within {HANG_S} s (a plain list is doubled by this operation)'
         xs = [tup(i) for i in entering(op)]
         got = [tuple(x) for x in obs[0]]
         new, pyerr = ref_apply(ref, op)
@@ -810,6 +854,8 @@ def nontrivial(c, out):
     if isinstance(out, Err):
         return True
     accepted = sum(1 for e, _ in out[1:] if not isinstance(e, Err))
+    if len(out) > 1 and out[-1][1] is None:
+        return True
     return (accepted >= 2 and len(out[-1][1][0] if len(out) > 1 else out[0][0]) >= 2) or accepted < len(out) - 1
 
 
